@@ -129,3 +129,43 @@ def lex_tokens(src: str):
     if lst.errors:
         return ("err", lst.errors[0])
     return ("ok", toks)
+
+
+def parse_invocations(data: bytes):
+    """the command invocations of the public parse tree: ('ok', [(name, [leaf texts with ( ) markers])])"""
+    from antlr4 import ParseTreeWalker
+    from cminx.parser.CMakeListener import CMakeListener
+    from cminx.parser.CMakeParser import CMakeParser
+    path = os.path.join(scratch(), "parse_input.cmake")
+    with open(path, "wb") as f:
+        f.write(data)
+
+    def leaves(ctx):
+        out = []
+        for ch in ctx.getChildren():
+            if isinstance(ch, CMakeParser.Single_argumentContext):
+                out.append(ch.getText())
+            elif isinstance(ch, CMakeParser.Compound_argumentContext):
+                out.append("(")
+                out += leaves(ch)
+                out.append(")")
+        return out
+
+    class Lst(CMakeListener):
+        def __init__(self):
+            self.inv = []
+
+        def enterCommand_invocation(self, ctx):
+            self.inv.append((ctx.Identifier().getText(), leaves(ctx)))
+    err = io.StringIO()
+    try:
+        with contextlib.redirect_stderr(err), contextlib.redirect_stdout(io.StringIO()):
+            d = Documenter(path, "T", "M", make_settings())
+            tree = d.parser.cmake_file()
+            if d.parser.getNumberOfSyntaxErrors() > 0:
+                return ("err", "syntax errors reported", err.getvalue()[-300:])
+            l = Lst()
+            ParseTreeWalker().walk(l, tree)
+        return ("ok", l.inv)
+    except BaseException as e:
+        return ("err", type(e).__name__, err.getvalue()[-300:])
